@@ -126,3 +126,15 @@ package encrypted_leaseset
 //@     assert(els.offlineSignature == nil || (fresh(offline_signature.OffKey(els.offlineSignature)) && fresh(offline_signature.OffSig(els.offlineSignature))))
 //@   }
 //@ }
+
+// ---- C15: expiry of an accepted EncryptedLeaseSet is published + expires
+// seconds, exactly (no 32-bit wrap), and the header fields are the encoded ones.
+//@ lemma C15_C02_EncryptedExpiry(data []byte) {
+//@   els, _, err := ReadEncryptedLeaseSet(data)
+//@   if err == nil {
+//@     n := 2 + len(els.blindedPublicKey)
+//@     assert(len(data) >= n+8 && uint64(els.Published()) == val(data[n:n+4]) && int(els.Expires()) == u16(data[n+4:n+6]) && int(els.Flags()) == u16(data[n+6:n+8]))
+//@     assert((&els).PublishedTime().Equal(time.Unix(int64(els.Published()), 0)))
+//@     assert((&els).ExpirationTime().Equal(time.Unix(int64(els.Published()), 0).Add(time.Duration(els.Expires()) * time.Second)))
+//@   }
+//@ }
